@@ -100,6 +100,13 @@ class _Abort(Exception):
     pass
 
 
+class _Runaway(BaseException):
+    """A dispatch keeps calling listeners without end (e.g. a list mutated while it is iterated)."""
+
+
+CALL_CAP = 3000
+
+
 def _execute_app(sc):
     from clikit import ConsoleApplication
     from clikit.api.event import PRE_HANDLE, PRE_RESOLVE
@@ -206,6 +213,8 @@ def execute(sc):
 
         def listener(event, event_name, dispatcher):
             calls.append((stack[-1] if stack else -1, lid, event_name))
+            if len(calls) > CALL_CAP:
+                raise _Runaway()
             log.append(("call", stack[-1] if stack else -1, lid))
             if behaviour == "stop":
                 event.stop_propagation()
@@ -234,6 +243,11 @@ def execute(sc):
             d.dispatch(EVENTS[ev])
         except _Abort as e:
             raised = e
+        except _Runaway:
+            if len(stack) > 1:
+                raise
+            res.violate("dispatch_sequence", "runaway", "a dispatch of %s called listeners more than %d times (each listener must be called once)" % (EVENTS[ev], CALL_CAP))
+            raise
         finally:
             stack.pop()
         dispatched_before["any"] = True
@@ -342,6 +356,8 @@ def execute(sc):
                     res.violate("query", "get_listener_priority", "priority of listener %d for %s = %r, model %r" % (lid, EVENTS[ev], got, want))
         except _Abort:
             pass
+        except _Runaway:
+            break
         except Exception as e:
             res.violate("op_raised", k, "%s: %s" % (type(e).__name__, e))
             break
